@@ -39,7 +39,8 @@ type ledgerState struct {
 	// per event index -> payload
 	snaps map[int][]*ledRes // exitScope event -> released values
 	reg   map[int]*ledRes   // evaluate/visit/addTemp/init event -> value
-	mode  string            // how statement children end: "", "break", "continue"
+	mode  string            // how statement children end: "", "break", "continue", "return"
+	ret   *FuncInfo
 	brk   *FuncInfo
 }
 
@@ -50,6 +51,41 @@ func (ls *ledgerState) scope(o *Obj) *ledScope {
 	s := &ledScope{}
 	ls.scopes[o] = s
 	return s
+}
+
+// sync exposes the ledger of a scope as the fields the generator's own code reads (variables, temporaries)
+func (ls *ledgerState) sync(sc *Obj) {
+	if sc == nil {
+		return
+	}
+	mv := MapV{}
+	sv := SliceV{}
+	for _, r := range ls.scope(sc).items {
+		if r.claimed {
+			continue
+		}
+		w := newObj("varwrapper")
+		w.set("val", r.val)
+		if r.prim {
+			w.set("typ", &GenT{Kind: "int"})
+		} else {
+			w.set("typ", &GenT{Kind: "string"})
+		}
+		w.set("isRef", boolV(r.isRef))
+		w.set("protected", boolV(r.protected))
+		if r.isVar {
+			var k Val = r.decl
+			if r.decl == nil {
+				k = newObj("ast.VarDecl")
+			}
+			mv.Keys = append(mv.Keys, k)
+			mv.Vals = append(mv.Vals, w)
+		} else {
+			sv.Elems = append(sv.Elems, w)
+		}
+	}
+	sc.set("variables", mv)
+	sc.set("temporaries", sv)
 }
 
 func (ls *ledgerState) find(v Val) *ledRes {
@@ -66,7 +102,10 @@ func (ls *ledgerState) find(v Val) *ledRes {
 }
 
 func installLedger(L *Loaded, in *Interp) *ledgerState {
-	ls := &ledgerState{brk: L.Fn("src/compiler.(*compiler).VisitBreakContinueStmt")}
+	ls := &ledgerState{brk: L.Fn("src/compiler.(*compiler).VisitBreakContinueStmt"), ret: L.Fn("src/compiler.(*compiler).VisitReturnStmt")}
+	in.Models["ast.(*Ast).GetMetadataByKind"] = func(in *Interp, pkg *packages.Package, call *ast.CallExpr, recv Val, args []Val) (Val, bool) {
+		return TupleV{Unk{"no metadata"}, boolV(false)}, true
+	}
 	type model = func(in *Interp, pkg *packages.Package, call *ast.CallExpr, recv Val, args []Val) (Val, bool)
 	prev := map[string]model{}
 	for _, n := range []string{"compiler.(*compiler).evaluate", "compiler.(*compiler).visitNode"} {
@@ -79,12 +118,14 @@ func installLedger(L *Loaded, in *Interp) *ledgerState {
 		if r.scope != nil {
 			sc := ls.scope(r.scope)
 			sc.items = append(sc.items, r)
+			ls.sync(r.scope)
 		}
 	}
 	in.Models["compiler.newScope"] = func(in *Interp, pkg *packages.Package, call *ast.CallExpr, recv Val, args []Val) (Val, bool) {
 		sc := newObj("scope")
 		sc.set("enclosing", args[0])
 		ls.scope(sc)
+		ls.sync(sc)
 		in.event("newScope", "", call.Pos(), sc, cbb())
 		return sc, true
 	}
@@ -122,6 +163,7 @@ func installLedger(L *Loaded, in *Interp) *ledgerState {
 		if r := ls.find(args[0]); r != nil {
 			r.claimed = true
 			ls.reg[len(in.Events)] = r
+			ls.sync(r.scope)
 		}
 		in.event("claim", "", call.Pos(), args[0], cbb())
 		return args[0], true
@@ -130,6 +172,7 @@ func installLedger(L *Loaded, in *Interp) *ledgerState {
 		return func(in *Interp, pkg *packages.Package, call *ast.CallExpr, recv Val, args []Val) (Val, bool) {
 			if r := ls.find(args[0]); r != nil {
 				r.protected = p
+				ls.sync(r.scope)
 			} else {
 				in.event("panic", "attempted protection of a value that is not in scope.temporaries", call.Pos())
 			}
@@ -223,7 +266,13 @@ func installLedger(L *Loaded, in *Interp) *ledgerState {
 			}
 		}
 		// a loop body may end in 'verlasse die Schleife' / 'fahre mit der Schleife fort': run the real visitor for that statement here
-		if _, inLoop := ls.c.get("curLeaveBlock").(*Obj); inLoop && ls.mode != "" && ls.brk != nil && (name == "Body") {
+		if ls.mode == "return" && name == "Body" && ls.ret != nil {
+			// the body ends in 'Gib zurück' (without value): run the real visitor for that statement here
+			n := newObj("ast.ReturnStmt")
+			n.set("Value", NilV{})
+			n.set("Func", newObj("ast.FuncDecl"))
+			in.CallFunc(ls.ret, ls.c, []Val{n})
+		} else if _, inLoop := ls.c.get("curLeaveBlock").(*Obj); inLoop && ls.mode != "" && ls.brk != nil && (name == "Body") {
 			n := newObj("ast.BreakContinueStmt")
 			tk := newObj("token.Token")
 			if ls.mode == "break" {
@@ -250,6 +299,15 @@ func (ls *ledgerState) reset(c *Obj, mode string) {
 	ls.snaps = map[int][]*ledRes{}
 	ls.reg = map[int]*ledRes{}
 	ls.mode = mode
+	// the scope of the surrounding code and the function scope above it
+	if amb, ok := c.get("scp").(*Obj); ok {
+		ls.sync(amb)
+		if fn, ok := amb.get("enclosing").(*Obj); ok {
+			fn.set("enclosing", newObj("scope"))
+			ls.sync(fn)
+			c.set("cfscp", fn)
+		}
+	}
 }
 
 // ---- typestate over the skeleton ----
@@ -333,6 +391,22 @@ func typestate(in *Interp, ls *ledgerState, entry, final Val) (resources []strin
 			}
 		}
 	}
+	retBlocks := map[int]bool{}
+	ambientScopes := map[*Obj]bool{}
+	if amb, ok := ls.c.get("scp").(*Obj); ok {
+		for sc := amb; sc != nil; sc, _ = sc.get("enclosing").(*Obj) {
+			if t, known := truth(sc.get("ambient")); known && t {
+				ambientScopes[sc] = true
+			}
+		}
+	}
+	for _, e := range in.Events {
+		if e.Kind == "term:NewRet" {
+			if i := sk.id(e.Data[0]); i >= 0 {
+				retBlocks[i] = true
+			}
+		}
+	}
 	fin := sk.id(final)
 	// reachable blocks
 	reach := sk.reach(sk.entry, nil)
@@ -384,6 +458,11 @@ func typestate(in *Interp, ls *ledgerState, entry, final Val) (resources []strin
 				}
 			}
 		}
+		for rb := range retBlocks {
+			if reach[rb] && outState[rb]&O != 0 && r.scope != nil && (created[r.scope] || ambientScopes[r.scope]) {
+				report("may still be owned when the function returns from inside the statement: the return path does not release it", token.NoPos)
+			}
+		}
 		if reach[fin] && outState[fin]&O != 0 && r.scope != nil && created[r.scope] {
 			report("may still be owned when the statement is left, although the scope it is registered in was opened by this statement: no path releases it", token.NoPos)
 		}
@@ -399,10 +478,10 @@ func checkC05Typestate(c *Check, L *Loaded) {
 	for _, jb := range skelJobs(L) {
 		modes := []string{""}
 		if strings.HasPrefix(jb.method, "VisitWhile") || strings.HasPrefix(jb.method, "VisitFor") {
-			modes = []string{"", "break", "continue"}
+			modes = []string{"", "break", "continue", "return"}
 		}
 		for _, mode := range modes {
-			label := map[string]string{"": "body falls through", "break": "body ends in Verlasse", "continue": "body ends in Fahre fort"}[mode]
+			label := map[string]string{"": "body falls through", "break": "body ends in Verlasse", "continue": "body ends in Fahre fort", "return": "body ends in Gib zurück"}[mode]
 			bad := map[string]tsFinding{}
 			seen := map[string]bool{}
 			runs := 0
